@@ -168,9 +168,6 @@ def run(ctx):
     for sh in range(mc_shards):
         futs.append(pool.submit(ctx.tlc, "MC_Patch", cfg_text=mc_cfg([]), env=gen_env(ctx, mc_rates, sh, mc_shards),
                                 name="mc-strict-%d" % sh, deadlock=False, timeout=5400, workers=4))
-    if thorough:   # statement coverage of the specification on a small selection (vacuity)
-        futs.append(pool.submit(ctx.tlc, "MC_Patch", cfg_text=mc_cfg([]), env=gen_env(ctx, {"F0": 1000, "F1": 20, "F2": 100, "F5": 50, "F6": 1}),
-                                name="mc-strict-coverage", deadlock=False, timeout=5400, workers=1, coverage=True, count_states=False))
     wit = []
     if thorough:
         for dev, inv in DEV_WITNESS.items():
@@ -190,8 +187,6 @@ def run(ctx):
         r = f.result()
         if not r.ok:
             raise vlib.Inconclusive("strict Patch spec does not satisfy its own properties: %s %s" % (r.violated, (r.error or "")[:1500]))
-        if r.coverage_zero:
-            ctx.extra["coverage_zero"] = r.coverage_zero[:10]
     ctx.extra["mc_strict"] = [t for t in ctx.tlc_runs if t["name"].startswith("mc-strict")]
     for dev, invs, f in wit:
         r = f.result()
